@@ -1840,7 +1840,11 @@ process(PseudoTcpSocket *self, Segment *seg)
       return FALSE;
     }
 
-    received_fin = (priv->rcv_nxt != 0 && priv->rcv_nxt + seg->len == priv->rcv_fin);
+    /* Only a segment which is next in sequence and which will be accepted in
+     * full (it fits the receive buffer) brings rcv_nxt up to the FIN. */
+    received_fin = (priv->rcv_nxt != 0 && seg->seq == priv->rcv_nxt &&
+        seg->len <= pseudo_tcp_fifo_get_write_remaining (&priv->rbuf) &&
+        priv->rcv_nxt + seg->len == priv->rcv_fin);
 
     /* Update the state machine, implementing all transitions on ‘rcv FIN’ or
      * ‘rcv ACK of FIN’ from RFC 793, Figure 6; and RFC 1122, §4.2.2.8. */
